@@ -25,6 +25,12 @@ CLAIMS = {
  "C20": dict(text="Lean 4 theorems for every line (all bytes) and every command/event sequence: parse is total and the four line shapes are exclusive; comments are never sent; non-command lines are sent verbatim; delayed and conditional sends carry exactly the stated text, delay, pattern, count, timeout; print/parse round trip for every well-formed command; Check errs iff some line is malformed w.r.t. an explicit decidable grammar; a received line passes iff no filter is set or no deny pattern and some accept pattern matches. Tied to internal/file by differential runs of the real ParseLine/Check/Filter (regexp verdicts for user patterns supplied by the real library in a two-phase protocol).",
              note=TB + "regexp.Compile/MatchString for user patterns are parameters; the five fixed expressions, ParseDuration and Atoi are modelled by hand and differential-tested.",
              tech="Lean 4 proof (scanner lemmas, structural induction) + model/implementation correspondence", ref="DESIGN.md 6 C20"),
+ "C15": dict(text="Lean 4 theorems for every sequence of rule add/replace/delete/delete-all, subscriber register/unregister and broadcasts: no sequence panics (current code; the three historical double-close sequences are proved to panic in the pre-fix variant); the number of copies of a feed message forwarded to a stream subscriber equals the multiplicity of the feed in the latest rule of its stream (0 if unregistered, no rule, or own message); removed feeds / deleted rules / delete-all stop at once; plain subscribers are unaffected by any rule operation. Tied to internal/agg + internal/hub by differential runs of the real hubs (Run and RunWithStats) with quiescence barriers and table dumps.",
+             note=TB + "a currently registered subscriber is not registered again (usage contract of every caller; the violating sequence is a proved negative theorem, not generated); drops under load (non-blocking inner sends) are outside the model.",
+             tech="Lean 4 proof (table invariant by induction over operation sequences) + model/implementation correspondence", ref="DESIGN.md 6 C15"),
+ "C18": dict(text="Lean 4 theorems for every state and every decoded command, and every sequence of websocket/HTTP operations: no panic, the reply is valid JSON (literal and concatenated replies proved against an inductive JSON grammar; json.Marshal output valid by assumption, checked per reply), an error leaves both rule maps unchanged, the set of refused commands is exactly the ill-formed ones plus delete-apiRule, apiRule exists after any websocket command sequence when the API is configured and is re-created by delete-all; HTTP handlers answer 200/404/500 and errors change nothing. Tied to internal/vw by differential runs of the real handleAdminMessage, internalAPI loop and HTTP router with grammar-generated byte strings; thorough adds a concurrent stress (known finding K5).",
+             note=TB + "encoding/json (same library calls performed by the harness) and gorilla/mux routing are not modelled; each command is one atomic step (K5 is the recorded exception).",
+             tech="Lean 4 proof (case analysis of the dispatcher, induction over command lists) + model/implementation correspondence", ref="DESIGN.md 6 C18"),
 }
 def main():
     props = [json.loads(l) for l in open(V + "/properties.jsonl")]
